@@ -41,13 +41,14 @@ class Target:
     nan_region: tuple | None = None  # (dim, lo, hi): likelihood is NaN there
     prior_hole: tuple | None = None  # (dim, lo, hi): prior is zero there
     like_cut: tuple | None = None  # (dim, threshold): likelihood is exactly zero (log = -inf) where x[dim] < threshold
+    prior_floor: float | None = None  # outside the support the prior returns this finite float64 sentinel instead of -inf
 
     # -- serialisation (scenario files) --------------------------------------
     def to_dict(self):
         return {
             k: getattr(self, k)
             for k in (
-                "kind dims lower upper factor mu sigma kappa sep c nan_region prior_hole like_cut"
+                "kind dims lower upper factor mu sigma kappa sep c nan_region prior_hole like_cut prior_floor"
             ).split()
         }
 
@@ -93,7 +94,7 @@ class Target:
             d, a, b = self.prior_hole
             inside &= ~((x[:, d] > a) & (x[:, d] < b))
         lp = np.full(len(x), -np.sum(np.log(hi - lo)))
-        return np.where(inside, lp, -np.inf)
+        return np.where(inside, lp, -np.inf if self.prior_floor is None else float(self.prior_floor))
 
     def log_like(self, x):
         x = np.asarray(x, dtype=np.float64)
